@@ -193,7 +193,14 @@ Proof.
       destruct (closeStream_fields m0 k) as [_ [_ [Hp [_ Hn]]]]. rewrite Hp.
       eapply all_ok_ext; [|exact A]. intros j. rewrite Hn. destruct (Nat.eqb j k); [|reflexivity].
       destruct (nth_error (m_streams m0) j); reflexivity. }
-    apply G. exact P.
+    apply G. simpl. eapply all_ok_ext; [|exact P]. intros k. rewrite nth_error_map.
+    destruct (nth_error (m_streams m) k); reflexivity.
+Qed.
+
+Lemma paths_ok_set_closed : forall m, paths_ok m -> paths_ok (set_closed m).
+Proof.
+  intros m P. unfold paths_ok in *. simpl. eapply all_ok_ext; [|exact P]. intros k. rewrite nth_error_map.
+  destruct (nth_error (m_streams m) k); reflexivity.
 Qed.
 
 Lemma paths_ok_closeStream : forall m k, paths_ok m -> paths_ok (mux_closeStream m k).
@@ -236,7 +243,7 @@ Proof.
     split; simpl; [rewrite (apply_wop_variant _ _ _ Ea); exact Hv|eapply paths_ok_wop; eauto].
   - split; assumption.
   - split; assumption.
-  - split; simpl; assumption.
+  - split; simpl; [exact Hv|apply paths_ok_set_closed; exact P].
   - split; assumption.
   - split; assumption.
   - destruct (Nat.ltb k (List.length (m_streams (c_mux c)))); [|split; assumption].
